@@ -238,6 +238,9 @@ let env_query (e : float env) (q : sx) : sx =
 let env_op (e : float env) (op : sx) : sx =
   match op with
   | L [A "sample_at"; t; ap] -> renv (sample_at fnum e (zi t) (zi ap))
+  | L [A "squash_in"; s; d; v] ->
+      (* Consecution.squash_in with an envelope as the receiver: the new child is a control point (shape 0) *)
+      renv (p_squash e (zi s) { pd = zi d; pv = fl v; pc = 0.0 })
   | L [A "extend_until"; d] -> renv (env_extend_until fnum e (zi d))
   | L [A "cut_out"; s; en] -> renv (env_cut_out fnum e (zi s) (zi en))
   | L [A "cut_off"; s; en] -> renv (env_cut_off fnum e (zi s) (zi en))
